@@ -202,6 +202,21 @@ func NewSession(files map[string][]byte) (*Session, error) {
 	return &Session{I: i, os: v, Ctx: context.Background()}, nil
 }
 
+// NewCLISession is NewSession plus the option stack that `fq` sets up in _main before any
+// expression runs (without it display and tovalue fail with "invalid bits format").
+func NewCLISession(files map[string][]byte) (*Session, error) {
+	s, err := NewSession(files)
+	if err != nil {
+		return nil, err
+	}
+	if _, err := s.Eval(nil, `_options_stack([_opt_build_default_fixed]) | length`); err != nil {
+		s.Close()
+		return nil, fmt.Errorf("options init: %w", err)
+	}
+	s.Stdout()
+	return s, nil
+}
+
 func (s *Session) Close() { s.I.Stop() }
 
 // Stdout returns and resets what evaluations printed.
